@@ -202,7 +202,7 @@ def gen_specs(rng, quick=True):
             a[np.diag_indices(d)] = np.exp(rng.normal(0, 1, d))
             specs.append(dict(kind="tri", shape=[d], dim=d, lower=lower, arr=_h(a), loc=_h(rng.normal(0, 2, d))))
     for d in (1, 2, 3):
-        for ns in (None, 0.1, 1.0, 0.5):
+        for ns in (None, 0.1, 1.0, 2.0, 4.5):
             p = rng.normal(0, 1.2, 2 * d + 1)
             specs.append(dict(kind="planar", shape=[d], dim=d, negative_slope=None if ns is None else fhex(ns), params=_h(p)))
     return specs
